@@ -218,7 +218,22 @@ HAND = [
 ]
 
 
+# identifiers that are words to the expression tokenizer but not plain names (a trailing question mark, hyphens), and paths nested in
+# brackets once and twice, in every place an expression can stand
+ODD_NAMES = ["ok?", "in-stock?", "k", "a-b"]
+ODD_DATA = {"ok?": "a", "in-stock?": "k", "k": "a", "a-b": "ok?", "h": {"a": "HA", "k": "HK", "ok?": "HOK", "in-stock?": "HIN", "a-b": "HAB"}, "xs": [[0, 1], [2]], "a": [10, 20, 30], "i": 1,
+            "ys": {"a": [1, 2], "k": [3]}}
+ODD_SHAPES = ["{{ N }}", "{{ h.N }}", "{{ h[N] }}", "{{ h[h[N]] }}", "{{ h[[N]] }}", "{{ [N] }}", "{{ [[N]] }}", "{{ a[[i]] }}", "{{ a[[1]] }}", "{{ [[0]] }}", "{{ a[i] }}", "{{ xs[i][0] }}", "{{ h | map: N }}", "{{ 'x' | append: N }}",
+              "{{ 'x' | append: h[N] }}", "{{ 'x' | default: N, allow_false: N }}", "{% include 'p' with N %}", "{% include 'p' with h[N] as v %}", "{% render 'p' with N as v %}", "{% include 'p' for ys[N] as item %}",
+              "{% render 'p', arg: N, v: h[N] %}", "{% assign v = N %}{{ v }}", "{% assign v = h[N] | upcase %}{{ v }}", "{% for i in ys[N] %}{{ i }}{% endfor %}", "{% cycle N, h[N] %}", "{% case N %}{% when h[N], N %}w{% else %}e{% endcase %}",
+              "{% if N == h[N] or h[N] %}y{% endif %}", "{{ N if h[N] else h[[N]] }}", "{% echo h[N] | append: N %}", "{% tablerow i in ys[N] cols: i %}{{ i }}{% endtablerow %}", "{% capture v %}{{ h[N] }}{% endcapture %}{{ v }}",
+              "{% liquid\nassign v = h[N]\necho v\n%}", "{% unless h[N] %}u{% else %}{{ h[N] }}{% endunless %}", "{% if h[N] contains N %}c{% endif %}", "{% for x in (i..a[[i]]) limit: a[i] %}{{ x }}{% endfor %}"]
+
+
 def cases(ctx: core.Ctx):
+    for gi, (shape, name) in enumerate(itertools.product(ODD_SHAPES, ODD_NAMES)):
+        if gi % ctx.nshards == ctx.shard:
+            yield {"source": shape.replace("N", name), "datas": [V.enc(ODD_DATA), V.enc({})], "kind": "odd-names-and-nested-paths"}
     rng = ctx.rng("cases")
     for s in HAND:
         yield {"source": s, "datas": data_sets(rng)}
